@@ -597,6 +597,10 @@ class SymEval:
             if self.inline and isinstance(st.value.func, ast.Name):
                 # a bare call statement to a helper that was asked to be inlined (validation factored out)
                 self.expr(st.value)
+            elif self.inline_self and isinstance(st.value.func, ast.Attribute) and isinstance(st.value.func.value, ast.Name) \
+                    and st.value.func.value.id == self.selfname and self.cls is not None and self.prog.find_method(self.cls, st.value.func.attr) is not None:
+                # a bare call of a method of the same object, with inlining of self-calls requested: its attribute updates are the caller's
+                self.expr(st.value)
             elif self._calls_new_helper(st.value):
                 # a bare call to a helper the reference tree does not have: its raises and attribute updates are the caller's
                 self.expr(st.value)
